@@ -131,6 +131,11 @@ func (fa *FuncAn) caseTable(termPat string) (map[string]string, []string) {
 	if len(out) > 0 {
 		return out, order
 	}
+	// a constant look-up table composed with another function's switch: v, ok := table[x];
+	// if !ok {…}; return g(v) — the table of g with its keys renamed through the map
+	if o, ord := fa.mapComposedTable(termPat); len(o) > 0 {
+		return o, ord
+	}
 	// the switch was extracted into a helper introduced later: read it there, with the helper's
 	// parameters rendered as this function's arguments
 	for _, b := range fa.Fn.Blocks {
@@ -318,3 +323,118 @@ func sortedNames(m map[string]types.Type) []string {
 }
 
 var _ = strings.Join
+
+// constMapOf: the contents of a package-level map that the package initialiser fills with constant
+// keys and values and that nothing writes afterwards.
+func (w *World) constMapOf(g *ssa.Global) map[string]string {
+	if _, isMap := g.Type().(*types.Pointer).Elem().Underlying().(*types.Map); !isMap {
+		return nil
+	}
+	if w.tableWriters(g) != "" || len(w.globalWriters()[g]) > 0 {
+		return nil
+	}
+	if g.Pkg == nil {
+		return nil
+	}
+	init := g.Pkg.Func("init")
+	if init == nil {
+		return nil
+	}
+	var mk ssa.Value
+	for _, b := range init.Blocks {
+		for _, in := range b.Instrs {
+			if st, ok := in.(*ssa.Store); ok && st.Addr == ssa.Value(g) {
+				mk = st.Val
+			}
+		}
+	}
+	if mk == nil || mk.Referrers() == nil {
+		return nil
+	}
+	out := map[string]string{}
+	for _, ref := range *mk.Referrers() {
+		switch x := ref.(type) {
+		case *ssa.MapUpdate:
+			k, ok1 := x.Key.(*ssa.Const)
+			v, ok2 := x.Value.(*ssa.Const)
+			if !ok1 || !ok2 || k.Value == nil || v.Value == nil {
+				return nil
+			}
+			out[k.Value.ExactString()] = v.Value.ExactString()
+		case *ssa.Store, *ssa.DebugRef:
+		default:
+			return nil
+		}
+	}
+	return out
+}
+
+func (fa *FuncAn) mapComposedTable(termPat string) (map[string]string, []string) {
+	for _, b := range fa.Fn.Blocks {
+		for _, in := range b.Instrs {
+			lk, ok := in.(*ssa.Lookup)
+			if !ok || !lk.CommaOk || !fullMatch(termPat, fa.R.R(lk.Index)) {
+				continue
+			}
+			ld, ok := lk.X.(*ssa.UnOp)
+			if !ok {
+				continue
+			}
+			g, ok := ld.X.(*ssa.Global)
+			if !ok {
+				continue
+			}
+			m := fa.W.constMapOf(g)
+			if m == nil {
+				continue
+			}
+			var val ssa.Value
+			for _, ref := range derefRefs(lk) {
+				if ex, isEx := ref.(*ssa.Extract); isEx && ex.Index == 0 {
+					val = ex
+				}
+			}
+			if val == nil {
+				continue
+			}
+			// the hit path: a call g(val) whose results are returned
+			for _, ref := range derefRefs(val) {
+				call, isCall := ref.(*ssa.Call)
+				if !isCall || len(call.Call.Args) != 1 || call.Call.Args[0] != val {
+					continue
+				}
+				callee := call.Call.StaticCallee()
+				if callee == nil || len(callee.Blocks) == 0 || len(callee.Params) != 1 {
+					continue
+				}
+				sub := NewFuncAn(fa.W, callee)
+				inner, _ := sub.caseTable(q(callee.Params[0].Name()))
+				if len(inner) == 0 {
+					continue
+				}
+				out := map[string]string{}
+				var order []string
+				for k, v := range m {
+					if r, has := inner[v]; has {
+						out[k] = r
+					} else if d, hasD := inner["default"]; hasD {
+						out[k] = d
+					}
+					order = append(order, k)
+				}
+				sort.Strings(order)
+				// the miss path: what the function returns when the key is not in the table
+				for _, x := range fa.Exits() {
+					rs := RetResults(x.Ret)
+					if len(rs) > 0 {
+						if s := fa.R.R(rs[0]); s == "nil" || strings.HasPrefix(s, "zero(") {
+							out["default"] = s
+						}
+					}
+				}
+				return out, order
+			}
+		}
+	}
+	return nil, nil
+}
